@@ -77,7 +77,7 @@ func doSelftest() int {
 	}
 	// the harness iterates only over slices and sorted keys where order
 	// matters; list the remaining map iterations for review
-	if out, err := exec.Command("grep", "-rn", "--include=*.go", `\.Range(`, filepath.Join(*verif, "sim")).Output(); err == nil && len(out) > 0 {
+	if out, err := exec.Command("grep", "-rn", "--include=*.go", "--exclude=selftest.go", `\.Range(func\|sync\.Map`, filepath.Join(*verif, "sim")).Output(); err == nil && len(out) > 0 {
 		fmt.Printf("SELFTEST: sync.Map.Range in the harness:\n%s", out)
 		bad++
 	}
